@@ -327,7 +327,9 @@ func genEditOp(r *rand.Rand, multiline bool) editOp {
 		a := strs([]string{"comp1", "comp2"}, 0, 2)
 		return editOp{map[string]interface{}{"op": "addComponent", "args": ifs(a)}, append([]string{"add", "component"}, a...)}
 	case 3, 4, 5:
-		opts := []string{"originAnnotations", "transformerAnnotations", "managedByLabel", "bogus", "originAnnotations,managedByLabel", "managedByLabel,managedByLabel"}
+		opts := []string{"originAnnotations", "transformerAnnotations", "managedByLabel", "bogus", "originAnnotations,managedByLabel", "managedByLabel,managedByLabel",
+			// several options in one call, neighbours in the file among them
+			"originAnnotations,transformerAnnotations", "transformerAnnotations,managedByLabel", "originAnnotations,transformerAnnotations,managedByLabel", "managedByLabel,originAnnotations"}
 		a := strs(opts, 0, 2)
 		if r.Intn(3) > 0 && len(a) > 1 {
 			a = a[:1]
